@@ -262,6 +262,97 @@ def apply_ops(unit, fn_text, log):
                     log.append({'unit': unit.id, 'rule': rule, 'what': 'insert %s `%s`' % (key, a[key])})
             else:
                 raise ExtractError('%s: edit needs find/after/before' % unit.id)
+        elif kind == 'chain':
+            # Method chain -> shim call.  `RECV<anchor>ARGS)<suffix>`  =>  `to(RECV, ARGS)`.
+            # RECV is the maximal postfix expression that ends where the anchor starts.
+            spans = rustlex.find_tokens(s, a['find'])
+            if 'argkind' in a:
+                # keep only the occurrences whose first argument token is a string / char literal
+                def first_arg_kind(en):
+                    rest = s[en:].lstrip()
+                    return 'str' if rest[:1] == '"' else ('char' if rest[:1] == "'" else 'other')
+                spans = [sp for sp in spans if first_arg_kind(sp[1]) == a['argkind']]
+            want = len(spans) if a.get('count') == 'all' and spans else int(a.get('count', '1'))
+            if len(spans) != want:
+                raise ExtractError('%s: chain anchor `%s` found %d times, expected %d' % (unit.id, a['find'], len(spans), want))
+            for st, en in reversed(spans):
+                toks = rustlex.tokens(s)
+                idx = max(k for k, t in enumerate(toks) if t[1] < st)  # last token before anchor
+                k = idx
+                KW = {'in', 'if', 'else', 'match', 'return', 'let', 'mut', 'while', 'for', 'loop', 'break'}
+                masked = rustlex.mask(s)
+                while k >= 0:
+                    t = toks[k][0]
+                    if t in (')', ']'):
+                        # jump to matching opener
+                        depth = 0
+                        while k >= 0:
+                            if toks[k][0] in (')', ']'):
+                                depth += 1
+                            elif toks[k][0] in ('(', '['):
+                                depth -= 1
+                                if depth == 0:
+                                    break
+                            k -= 1
+                        k -= 1
+                        continue
+                    if (re.match(r'^[A-Za-z_0-9]', t) and t not in KW) or t in ('.', ':', '&', '*', '?'):
+                        k -= 1
+                        continue
+                    break
+                recv_start = toks[k + 1][1]
+                recv = s[recv_start:st]
+                if a['find'].rstrip().endswith('('):
+                    ob = en - 1
+                    cb = rustlex.match_close(masked, ob)
+                    args = s[ob + 1:cb].strip()
+                    after = cb + 1
+                else:
+                    args, after = '', en
+                if 'suffix' in a:
+                    sp = rustlex.find_tokens(s, a['suffix'], after)
+                    if not sp or s[after:sp[0][0]].strip():
+                        raise ExtractError('%s: chain suffix `%s` does not follow' % (unit.id, a['suffix']))
+                    after = sp[0][1]
+                call = '%s(%s%s%s)' % (a['to'], recv.strip(), (', ' + args) if args else '',
+                                        (', ' + a['extra']) if 'extra' in a else '')
+                s = s[:recv_start] + call + s[after:]
+            log.append({'unit': unit.id, 'rule': a.get('rule', 'E3'), 'what': 'RECV%s..%s -> %s(RECV, ..)' % (a['find'], a.get('suffix', ''), a['to'])})
+        elif kind == 'closure':
+            # Closure literal -> same closure with typed parameters, named result and contract
+            # (rule E12). The closure *body* is kept verbatim; an expression body gets braces.
+            spans = rustlex.find_tokens(s, a['find'])
+            nth = int(a.get('nth', '0'))
+            want = int(a.get('of', '1'))
+            if len(spans) != want:
+                raise ExtractError('%s: closure anchor `%s` found %d times, expected %d' % (unit.id, a['find'], len(spans), want))
+            st, en = spans[nth]
+            masked = rustlex.mask(s)
+            k = en
+            while masked[k].isspace():
+                k += 1
+            if masked[k] == '{':
+                bs, be = k, rustlex.match_close(masked, k) + 1
+                body_txt = s[bs:be]
+            else:
+                # expression body: up to the `,` or `)` that closes the enclosing call at depth 0
+                depth, j = 0, k
+                while j < len(masked):
+                    ch = masked[j]
+                    if ch in '([{':
+                        depth += 1
+                    elif ch in ')]}':
+                        if depth == 0:
+                            break
+                        depth -= 1
+                    elif ch == ',' and depth == 0:
+                        break
+                    j += 1
+                bs, be = k, j
+                body_txt = '{ ' + s[bs:be].strip() + ' }'
+            head = a['params'] + ' -> (' + a['ret'] + ')\n' + payload.rstrip('\n') + '\n'
+            s = s[:st] + head + body_txt + s[be:]
+            log.append({'unit': unit.id, 'rule': 'E12', 'what': 'closure `%s` given contract (%s)' % (a['find'], a['ret'])})
         else:
             raise ExtractError('unknown op ' + kind)
     return s
@@ -358,6 +449,8 @@ def expand(group_path):
             i += 1
             contract = ''
             sig_override = None
+            wrapper = None
+            tail = ''
             while i < len(lines):
                 st2 = lines[i].strip()
                 if not st2.startswith('//@'):
@@ -373,7 +466,11 @@ def expand(group_path):
                 elif w2 == 'sig':
                     pl, i = payload_from(i + 1)
                     sig_override = (parse_kv(r2), pl)
-                elif w2 in ('edit', 'macro', 'dropcall'):
+                elif w2 == 'wrapper':
+                    wrapper, i = payload_from(i + 1)
+                elif w2 == 'tail':
+                    tail, i = payload_from(i + 1)
+                elif w2 in ('edit', 'macro', 'dropcall', 'chain', 'closure'):
                     pl, i = payload_from(i + 1)
                     unit.ops.append((w2, parse_kv(r2), pl))
                 else:
@@ -388,6 +485,49 @@ def expand(group_path):
             fs, ob, cb = find_fn(src, fname, impl_header)
             real = src[fs:cb + 1]
             sig, body = src[fs:ob], src[ob:cb + 1]
+            if 'slice_from' in a:
+                # A slice: the statements from anchor `slice_from` through the end of the block
+                # statement that starts at anchor `slice_through` (a loop or an `if`), verified as a
+                # function of its own whose parameters are the slice's free variables (the wrapper
+                # signature comes from the template; DESIGN section 4).
+                sp = rustlex.find_tokens(body, a['slice_from'])
+                if len(sp) != 1:
+                    raise ExtractError('%s: slice_from `%s` found %d times' % (unit.id, a['slice_from'], len(sp)))
+                st = sp[0][0]
+                if 'slice_until' in a:
+                    sp2 = [x for x in rustlex.find_tokens(body, a['slice_until']) if x[0] > st]
+                    if len(sp2) < 1:
+                        raise ExtractError('%s: slice_until `%s` not found' % (unit.id, a['slice_until']))
+                    en = sp2[0][0]
+                else:
+                    sp2 = [x for x in rustlex.find_tokens(body, a['slice_through']) if x[0] >= st]
+                    if len(sp2) < 1:
+                        raise ExtractError('%s: slice_through `%s` not found' % (unit.id, a['slice_through']))
+                    mb = rustlex.mask(body)
+                    k, pd = sp2[0][0], 0
+                    while k < len(mb):
+                        ch = mb[k]
+                        if ch in '([':
+                            pd += 1
+                        elif ch in ')]':
+                            pd -= 1
+                        elif ch == '{' and pd == 0:
+                            break
+                        k += 1
+                    en = rustlex.match_close(mb, k) + 1
+                if wrapper is None:
+                    raise ExtractError('%s: slice needs //@wrapper' % unit.id)
+                real = body[st:en]
+                body2 = apply_ops(unit, strip_vis_and_attrs(real), log)
+                gen = wrapper.rstrip('\n') + '\n{\n' + body2 + '\n' + tail + '}\n'
+                first = len(out) + 1
+                emit(gen)
+                units[unit.id] = (first, len(out), a['file'] + '::' + fnspec + ' [slice]')
+                log.append({'unit': unit.id, 'rule': 'SLICE', 'what': 'statements `%s` .. of fn %s verified as a function of their free variables' % (a['slice_from'], fnspec)})
+                diffs[unit.id] = ''.join(difflib.unified_diff(
+                    real.splitlines(True), gen.splitlines(True),
+                    'repo:' + a['file'] + '::' + fnspec + ' [slice]', 'generated:' + unit.id, n=1))
+                continue
             if sig_override is not None:
                 sa, spl = sig_override
                 if [t[0] for t in rustlex.tokens(sig)] != [t[0] for t in rustlex.tokens(sa['was'])]:
